@@ -20,10 +20,13 @@ TRUSTED_BASE = [
 ASSUMPTIONS = ["numeric literals: |int| <= 2^53, floats printed by repr() without exponent or with a negative exponent (floats >= 1e16 print as 1e+16 and re-lex as integers: outside the property's stated range)"]
 TECHNIQUE = "serializer model + parser model correspondence; round trip compile(str(q)) = q, idempotence and grammar membership checked on the implementation with the Coq recognizer; Coq theorems on canonical quoting"
 LEVEL = "proof"
-LEVEL_TEXT = ("Proved (Props/C12.v): C12_filter_free_roundtrip - for every query without filter selectors the printed text compiles to the same query (omitted slice steps made explicit), prints identically again "
-              "and selects the same nodes, end to end through the serializer, lexer and parser models; C12_quotes_canonical, C12_parentheses. For queries with filters the round trip is NOT proved (partial): "
-              "round trip, idempotence and validity of the text are decided on every generated query against the real code, and the text is compared with the model.")
-LEVEL_NOTE = "Partial for queries with filters. Trusted: Coq kernel; serializer, lexer, parser models (correspondence); extraction and driver."
+LEVEL_TEXT = ("Proved (Props/C12.v): C12_roundtrip - for every registry and range and every well-typed, in-range query with any nesting of !, &&, ||, comparisons, function calls and embedded "
+              "filters whose literals are strings, booleans, null and integers surviving repr()/float() (decidable condition lx_query, Spec/Printable.v): the printed text lexes and parses to the same query "
+              "(omitted slice steps made explicit), which prints identically again, compiles to itself and selects the same nodes on every value - end to end through the serializer, the whole lexer state "
+              "machine incl. the filter state with its stacks, and the Pratt parser; C12_roundtrip_compiled, C12_filter_free_roundtrip, C12_quotes_canonical, C12_parentheses. NOT covered by the theorem: "
+              "queries with FLOAT literals (7% of the generated ones; the check evaluates the hypothesis on every query, in Python and in the model) - round trip, idempotence and validity of the text are "
+              "decided on every generated query against the real code, and the text is compared with the model.")
+LEVEL_NOTE = "Partial for queries with float literals. Trusted: Coq kernel; serializer, lexer, parser models (correspondence); extraction and driver."
 
 
 def cases(ctx, budget):
@@ -60,8 +63,51 @@ def cases(ctx, budget):
             if not info.get("idem"): return "serialising again gives a different text"
             return None
         nontriv = "filter" in repr(q) or any(nm not in gen.SIMPLE_NAMES for nm in names if repr(nm) in repr(q))
+        if out[0] == 0:
+            # the decidable hypothesis of theorem C12_roundtrip (Spec/Printable.v, lx_query), evaluated independently here on the compiled query and by the model:
+            # literals are strings / booleans / null / integers that survive repr() and float(); names are Unicode scalar values; function names are lexable
+            hyp = lx_query(gen.ast_of_query(c1))
+            yield Case({"text": text, "hypothesis_of_C12_roundtrip": hyp}, [22] + renc + wire.enc_str(text), [0, 1 if hyp else 0], None, None, False,
+                       "theorem-hypothesis-holds" if hyp else "theorem-hypothesis-fails (float literal ...): correspondence only")
         yield Case({"text": text, "str": t1}, [5] + renc + wire.enc_str(text), out if out[0] == 0 else out, [104, fm] + wire.enc_str(t1), None, nontriv,
                    "filter" if "filter" in repr(q) else "plain", True, chk)
+
+
+def lx_lit(v):
+    if v is None or isinstance(v, bool): return True
+    if isinstance(v, str): return all(not (0xD800 <= ord(ch) <= 0xDFFF) for ch in v)
+    if isinstance(v, int):
+        try: return int(float(repr(v))) == v
+        except OverflowError: return False
+    return False
+
+
+def lx_expr(e):
+    k = e[0]
+    if k == "lit": return lx_lit(e[1])
+    if k in ("rel", "abs"): return all(lx_seg(g) for g in e[1])
+    if k == "call":
+        f = e[1]
+        ok = bool(f) and "a" <= f[0] <= "z" and all(("a" <= ch <= "z") or ch == "_" or ("0" <= ch <= "9") for ch in f[1:])
+        return ok and all(lx_expr(a) for a in e[2])
+    if k == "not": return lx_expr(e[1])
+    if k in ("and", "or"): return lx_expr(e[1]) and lx_expr(e[2])
+    if k == "cmp": return lx_expr(e[2]) and lx_expr(e[3])
+    raise ValueError(k)
+
+
+def lx_sel(s):
+    if s[0] == "name": return lx_lit(s[1])
+    if s[0] == "filter": return lx_expr(s[1])
+    return True
+
+
+def lx_seg(g):
+    return bool(g[1]) and all(lx_sel(s) for s in g[1])
+
+
+def lx_query(q):
+    return all(lx_seg(g) for g in q)
 
 
 def norm_reply(r):
